@@ -124,7 +124,7 @@ impl TypeId {
         }
     }
 
-    fn as_object_id(&self) -> Option<ObjectId> {
+    pub(crate) fn as_object_id(&self) -> Option<ObjectId> {
         match self {
             TypeId::Object(id) => Some(*id),
             _ => None,
